@@ -336,6 +336,12 @@ func (g *flowGen) finish() {
 	p.NumFns = g.nfn
 	p.ConcurrentOK = true
 	p.GoTag = []string{"go1.21", "", "go1.20", "go1.18"}[p.nameOffset()%4]
+	if off := p.nameOffset() / 7; (p.Flow != nil && p.Flow.Concurrency || p.Par != nil && p.Par.Concurrency) && off%4 == 1 {
+		p.ConstConc = []int{2, 3, 4, 8}[(off/4)%4]
+	}
+	if off := p.nameOffset() / 11; p.Par != nil && p.Par.COE && off%3 == 1 {
+		p.ConstCOE = 1 + (off/3)%2
+	}
 	for _, f := range p.AllFns() {
 		if (f.Spell == SpTop || f.Spell == SpImport || f.Spell == SpGeneric) && !f.Ctx {
 			p.ConcurrentOK = false
@@ -344,6 +350,9 @@ func (g *flowGen) finish() {
 	feat := map[string]bool{}
 	if p.GoTag != "" {
 		feat["file-pinned-to-older-go-release"] = true
+	}
+	if p.ConstConc > 0 || p.ConstCOE > 0 {
+		feat["option-argument-is-a-constant-that-differs-under-the-cff-tag"] = true
 	}
 	for _, f := range p.AllFns() {
 		feat[fmt.Sprintf("spell%d", f.Spell)] = true
